@@ -29,6 +29,9 @@ CHECKS = {
  "C11": ("Lean theorem VM.C11_setup_at_most_once over arbitrary histories of successful operations, applyOp_res_keep (first value kept); tie: random operation histories (call / executor / setup / setup(target) / deepcopy, sync+async, under scripted completion orders) compared op by op with the Lean history model (entered sets, values).", "7", "induction over histories + differential testing"),
  "C15": ("Lean theorems runHistory_res_nonsetup / applyOp_res_nonsetup (an instance only ever gains setup results, failing operations included) so a call's outcome is a function of (table, setup results, own arguments); tie: histories with different argument tuples, failing calls, executors, compose, config reloads; executor re-runs after success and after failure must be refused or complete.", "7", "induction over histories + differential testing"),
  "C18": ("Lean theorem VM.C18_restart_same (a run seeded with cached values computes the same results and its execution graph excludes the cached nodes); tie: (caching run, restart) pairs over whole DAG / target nodes / cache_deps_of with execution counters and pickle key sets. Partial: pickle round-trip trusted.", "7", "proof over denotation + differential testing"),
+ "C16": ("Lean theorem TH.C16_owner_safe: under EVERY interleaving of well-bracketed thread programs (builds, decorated-function calls outside a DAG, calls of shared DAGs) each thread observes a prefix of what it observes alone, for the owner-aware description-context test the code now uses; TH.C16_pinned_witness is the machine-checked counterexample for the test the pinned code used. Tie: real threads forced through scripted interleavings (random + every interleaving of small programs) compared with the model and with solo observations; overlapping runs of one shared DAG with distinct arguments. Partial: atomicity assumed at API-segment granularity.", "7", "invariant proof over all interleavings + scripted real-thread interleavings"),
+ "C17": ("(a) both flavours run the same coroutine: same programs executed in both flavours must agree (value or error) under random configurations and scripted completion orders; (b) asyncio.gather of 2-8 concurrent awaits with distinct arguments under scripted completion orders, each must return its own result (per-execution state is a private copy: VM.C01_core applies to each execution separately); (c) Lean TM.C17c_partial: without thread-resource nodes the scheduler never executes a loop-blocking wait; TM.C17c_mixed_witness refutes it for mixed resources = recorded known finding. Partial: the non-interference product theorem for (b) is not mechanised; event-loop fairness trusted.", "7", "proof (liveness partial) + differential/flavour testing"),
+ "C19": ("Executable Lean model of compose at table level (VM/Compose.lean: inputs become precomputed holders, restriction to what the outputs need) compared with the real composed DAGs and an independent Python oracle on random and (thorough) exhaustive (inputs, outputs) pairs, alias forms, Ellipsis, error cases, original probed before/after. PARTIAL: the restriction theorem (den of the restricted table agrees on the needed set) is not yet proved; the proved lemmas it rests on are VM.C01_core and the seeded-restart theorem.", "7", "executable model + differential testing (partial proof)"),
 }
 
 NOT_YET = {
